@@ -20,7 +20,7 @@ REQUIRED_THEOREMS = [
     'C10_table_rows_applied', 'C10_table_counterexample', 'C10_table_counterexample_start',
     'C10_dataset_rows', 'C10_dataset_row_amount', 'C10_multi_partial', 'C10_overlap_counterexample',
     'C10_surgery_direct', 'C10_surgery_indirect', 'C10_delivered_integral', 'paceStep_eq_pace',
-    'C10_multi_nonoverlap', 'C10_dataset_delivery']
+    'C10_multi_nonoverlap', 'C10_dataset_delivery', 'C10_reduced_passthrough']
 RULE = ('regimens (dose, start, duration, period|None, num|None) with dyadic numbers (and the default 0.01 '
         'duration), single / finite / indefinite, incl. ill-formed ones (zero duration, duration > period, '
         'negative start, num without period); final times on every boundary (None, < start, = start, '
@@ -120,17 +120,34 @@ def pacing_trace(protocol, grid):
 # ------------------------------------------------------------------------------------------------
 # A/B: regimen → protocol → pace → delivered
 # ------------------------------------------------------------------------------------------------
-def check_regimen(ctx, model, reg, kind, route, i):
-    inp = {'regimen': reg, 'kind': kind, 'route': route}
+def front_door(chi, model, door, fixed_value=1.25):
+    """the object through which the regimen is set: the PKPD model itself, a ReducedMechanisticModel around
+    it, or one whose parameters were fixed BEFORE the regimen is set (as PredictiveModel.fix_parameters and
+    the problem controller do)"""
+    if door == 'model':
+        return model
+    red = chi.ReducedMechanisticModel(model)
+    if door == 'reduced-fixed':
+        red.fix_parameters({'central.size': fixed_value})
+    return red
+
+
+def check_regimen(ctx, model, reg, kind, route, i, chi=None, door='model'):
+    inp = {'regimen': reg, 'kind': kind, 'route': route, 'set_through': door}
     nontriv = (kind != 'single' and reg['start'] > 0)
     ctx.case('regimen/' + kind, nontrivial='regimen/%s/start>0/%s' % (kind, route) if nontriv else False,
              sample=inp)
-    mv = ctx.model('C10.event', reg['dose'], reg['start'], reg['duration'], reg['period'], reg['num'])
+    margs = [reg['dose'], reg['start'], reg['duration'], reg['period'], reg['num']]
+    mv = ctx.model('C10.event', *(margs if door == 'model' else ['reduced'] + margs))
+    setter = front_door(chi, model, door)
+    ctx.branches.add('set_through:' + door)
     refsim.clear_record()
     try:
         with np.errstate(all='ignore'):
-            model.set_dosing_regimen(**reg)
-        proto = model.dosing_regimen()
+            setter.set_dosing_regimen(**reg)
+        proto = setter.dosing_regimen()
+        if model.dosing_regimen() is None or proto.code() != model.dosing_regimen().code():
+            raise AssertionError('wrapper and wrapped model report different regimens')
         evs = [ev_tuple(e) for e in proto.events()]
         co = ['ok', evs[0]] if len(evs) == 1 else ['ok', evs]
     except Exception as e:  # noqa
@@ -177,12 +194,15 @@ def lib_vector(model, values):
     return [values[n] for n in model.parameters()]
 
 
-def check_simulated(ctx, chi, models, reg, kind, direct, rng):
+def check_simulated(ctx, chi, models, reg, kind, direct, rng, door='model'):
     """library one-compartment model: cumulative input (ke = 0) and concentrations (ke > 0)"""
     model = models[direct]
     route = 'direct' if direct else 'indirect'
-    inp = {'regimen': reg, 'route': route}
-    model.set_dosing_regimen(**reg)
+    inp = {'regimen': reg, 'route': route, 'set_through': door}
+    V = float(rng.uniform(0.5, 2.0))
+    model.set_dosing_regimen(1.0)                       # something else first: the wrapper must replace it
+    sim_obj = front_door(chi, model, door, V)
+    sim_obj.set_dosing_regimen(**reg)
     ev = ev_tuple(model.dosing_regimen().events()[0])
     p = reg['period'] or 0.0
     t_end = reg['start'] + (3 * p if p else 0) + reg['duration'] + 0.5
@@ -190,7 +210,6 @@ def check_simulated(ctx, chi, models, reg, kind, direct, rng):
                         reg['start'] + p + reg['duration'] / 4, t_end / 2, t_end]))
     times = [float(t) for t in times]
     ka = float(rng.uniform(0.5, 2.0))
-    V = float(rng.uniform(0.5, 2.0))
     sched = cf.schedule(reg['dose'], reg['start'], reg['duration'], reg['period'], reg['num'], times[-1] + 1)
     lm = cf.one_compartment_documented(depot=not direct)
     outs = ['A'] if direct else ['A', 'Ad']
@@ -199,7 +218,8 @@ def check_simulated(ctx, chi, models, reg, kind, direct, rng):
         vals = {'central.drug_amount': 0.0, 'dose.drug_amount': 0.0, 'central.size': V,
                 'dose.absorption_rate': ka, 'global.elimination_rate': ke}
         refsim.clear_record()
-        res = np.asarray(model.simulate(lib_vector(model, vals), times))
+        vec = [vals[n] for n in sim_obj.parameters()]      # the reduced model takes the free parameters only
+        res = np.asarray(sim_obj.simulate(vec, times))
         run = [r for r in refsim.RECORD if r[1] == 'run'][-1][2]
         ctx.spec('C10.protocol_attached', run['protocol'] == model.dosing_regimen().code(), inp,
                  {'protocol at run': run['protocol']})
@@ -685,6 +705,8 @@ def run(ctx):
         pm_model = lib.one_compartment_pk_model()
         pm_model.set_administration('central')
         pm = chi.PredictiveModel(pm_model, [chi.GaussianErrorModel()])
+        pm_fixed = chi.PredictiveModel(pm_model, [chi.GaussianErrorModel()])
+        pm_fixed.fix_parameters({'central.size': 2.0, 'Sigma': 0.5})
         out = 'central.drug_concentration'
         ctl_model = lib.one_compartment_pk_model()
         ctl_model.set_administration('central', direct=False)
@@ -723,15 +745,20 @@ def run(ctx):
             rng = ctx.sub_rng(i)
             reg, kind = gen_regimen(rng)
             direct = bool(i % 2 == 0)
-            got = ctx.guard(check_regimen, ctx, models[direct], reg, kind, 'direct' if direct else 'indirect', i)
+            door = ['model', 'reduced-fixed', 'reduced'][int(rng.integers(3))]
+            got = ctx.guard(check_regimen, ctx, models[direct], reg, kind, 'direct' if direct else 'indirect', i,
+                            chi, door)
             if got is None:
                 continue
             ev, proto = got
             if reg['duration'] != 0.01:
-                pm.set_dosing_regimen(**reg)
-                ctx.guard(check_table, ctx, pm, [ev], [reg], kind, rng, {'regimen': reg})
+                # the table of a predictive model, also one whose parameters were fixed before the regimen
+                pmx = pm if i % 2 == 0 else pm_fixed
+                pmx.set_dosing_regimen(**reg)
+                ctx.guard(check_table, ctx, pmx, [ev], [reg], kind, rng,
+                          {'regimen': reg, 'predictive_model': 'plain' if pmx is pm else 'parameters fixed first'})
             if i < n_sim and reg['duration'] != 0.01:
-                ctx.guard(check_simulated, ctx, chi, models, reg, kind, direct, rng)
+                ctx.guard(check_simulated, ctx, chi, models, reg, kind, direct, rng, door)
         # --- explicit protocols with several events
         for i in range(20 if quick else 300):
             rng = ctx.sub_rng(10 ** 5 + i)
